@@ -487,6 +487,41 @@ def recording(rec):
             return meta
         return make
 
+    def mk_info(name):
+        """Read-only accessors: what they report must be the frame's current state (the specification compares it with
+        the state the frame's own recorded calls left)."""
+        def make(orig):
+            def info(self, *a, **kw):
+                if rec.depth > 0:
+                    return orig(self, *a, **kw)
+                before, d0, ax0 = rec.est(self), _dig(self.data), rec.axes(self)
+                ret, exc = outer(lambda: orig(self, *a, **kw))
+                ev = {"e": "Info", "src": name, "fid": rec.fid(self), "st": "ok" if exc is None else type(exc).__name__,
+                      "before": before, "after": rec.est(self), "dig0": d0, "dig1": _dig(self.data),
+                      "axes_same": rec.axes_same(ax0, rec.axes(self)), "reported": {"zero": False, "m": "?", "s": "?"},
+                      "rate": rec.rate(self), "value_ok": True}
+                if exc is None:
+                    try:
+                        if name == "get_noise_stats":
+                            m, s_ = float(ret[0]), float(ret[1])
+                            ev["reported"] = {"zero": bool(m == 0 and s_ == 0), "m": repr(m), "s": repr(s_)}
+                        elif name == "get_total_stats":
+                            ev["value_ok"] = bool(_close(ret[0], np.mean(self.data), 1e-9) and _close(ret[1], np.std(self.data), 1e-9))
+                        elif name == "get_params":
+                            ev["value_ok"] = bool(ret == {"fchans": self.fchans, "tchans": self.tchans, "df": self.df, "dt": self.dt,
+                                                          "fch1": self.fch1, "ascending": self.ascending}
+                                                  and tuple(self.data.shape) == (ret["tchans"], ret["fchans"]))
+                        elif name == "get_metadata":
+                            ev["value_ok"] = bool(ret is self.metadata or ret == self.metadata)
+                    except Exception:
+                        ev["value_ok"] = False
+                rec.events.append(ev)
+                if exc is not None:
+                    raise exc
+                return ret
+            return info
+        return make
+
     def mk_copy(orig):
         def copy(self):
             if rec.depth > 0:
@@ -510,6 +545,8 @@ def recording(rec):
         patch(F, "save_npy", mk_save("npy"))
         patch(F, "load_pickle", mk_load_pickle)
         patch(F, "copy", mk_copy)
+        for nm in ("get_noise_stats", "get_total_stats", "get_params", "get_metadata"):
+            patch(F, nm, mk_info(nm))
         patch(F, "add_metadata", mk_meta("add_metadata"))
         patch(F, "update_metadata", mk_meta("update_metadata"))
         patch(F, "get_intensity", mk_snr("get_intensity"))
